@@ -283,23 +283,33 @@ def run(pid, tier, seed, replay=None):
             if plan.get("shuffle") and "ds" in p["tags"] and any(r["name"] == "e" and r["input"] for r in p["rels"]):
                 # vector-order family (C06): the rows of one input vector in many orders (a provider sees them one by one)
                 import itertools
-                pair_sets = [[(0, 1), (2, 3), (4, 5), (1, 2), (3, 4), (5, 0)], [(1, 0), (2, 1), (3, 2), (4, 3), (5, 4), (0, 3)],
-                             [(0, 1), (1, 2), (2, 0), (3, 4), (4, 3), (2, 3)]]
-                for ps in pair_sets:
+                # a path and a tree over 7 elements (every order of the 6 pairs), a cycle with a chord (sampled orders)
+                pair_sets = [([(1, 2), (3, 4), (5, 6), (2, 3), (4, 5), (6, 0)], 720), ([(0, 1), (0, 2), (1, 3), (1, 4), (2, 5), (2, 6)], 240),
+                             ([(0, 1), (1, 2), (2, 0), (3, 4), (4, 3), (2, 3)], 120)]
+                for ps, nperm in pair_sets:
                     perms = list(itertools.permutations(range(len(ps))))
-                    for pm in rnd.sample(perms, 60 if tier == "quick" else 720):
+                    for pm in (perms if tier == "thorough" or nperm >= len(perms) else rnd.sample(perms, nperm)):
                         inputs = {r["name"]: [] for r in p["rels"] if r["input"]}
                         inputs["e"] = [list(ps[j]) for j in pm]
-                        rnd_items.append({"id": len(rnd_items) + 1, "pi": pidx[p["name"]], "inputs": inputs, "prog": p, "keep_order": True})
+                        rnd_items.append({"id": len(rnd_items) + 1, "pi": pidx[p["name"]], "inputs": inputs, "prog": p, "keep_order": True,
+                                          "only_variants": ("ser", "str", "strpar")})
             if any(r["name"] == "sched" for r in p["rels"]) and "ds" in p["tags"]:
                 for k in range(int(per_prog * 1.5)):
                     rnd_items.append({"id": len(rnd_items) + 1, "pi": pidx[p["name"]], "inputs": structured_schedule(p, rnd), "prog": p})
-        lms, evres = semlib.eval_least_models(sel, rnd_items, work)
+        # the least model does not depend on the order of the rows: one evaluation per distinct database
+        canon = {}
+        for it in rnd_items:
+            key = (it["pi"], json.dumps({r: sorted(map(json.dumps, v)) for r, v in it["inputs"].items()}, sort_keys=True))
+            it["_rep"] = canon.setdefault(key, it["id"])
+        reps = [it for it in rnd_items if it["_rep"] == it["id"]]
+        lms, evres = semlib.eval_least_models(sel, reps, work)
+        for it in rnd_items:
+            lms[it["id"]] = lms[it["_rep"]]
         for r in evres:
             out.add_tlc(r, "SemEval (least models of the seeded random databases)")
         for it in rnd_items:
             p = it["prog"]
-            for v in [v for v in plan["variants"] if (p["name"], v) in mods]:
+            for v in [v for v in plan["variants"] if (p["name"], v) in mods and ("only_variants" not in it or v in it["only_variants"])]:
                 cid += 1
                 ops = semlib.input_ops(p, it["inputs"], None if it.get("keep_order") else rnd) + [{"op": "run"}]
                 case = semlib.make_case(cid, p, pidx[p["name"]], v, ops)
